@@ -1,0 +1,18 @@
+//go:build verif
+// +build verif
+
+package gps
+
+// VerifLeapSeconds exposes the leap-second table for the verification
+// harness: for every entry the table instant as Unix seconds and the
+// duration that is added, in nanoseconds. Add-only; not part of normal builds.
+func VerifLeapSeconds() (unix []int64, durNs []int64) {
+	for _, ls := range leapSecondsTable {
+		unix = append(unix, ls.Time.Unix())
+		durNs = append(durNs, int64(ls.Duration))
+	}
+	return
+}
+
+// VerifGPSEpochUnix exposes the GPS epoch as Unix seconds.
+func VerifGPSEpochUnix() int64 { return gpsEpochTime.Unix() }
